@@ -408,8 +408,29 @@ func execC17(w *W, args json.RawMessage) CaseOut {
 	return <-res
 }
 
+// subscriptions to unreachable notices on the datagram socket: pending notices, unsubscribe, close, shutdown
+func c17SubscriptionSeqs(thorough bool) [][]string {
+	var seqs [][]string
+	for _, sub := range []string{"subscribe-idle", "subscribe-read"} {
+		tail := []string{"unknown-send2", "unsubscribe", "close-dgram", "ping-expired", "blocked1", "shutdown-a", "subscribe-read"}
+		for _, x := range tail {
+			seqs = append(seqs, []string{"open-dgram", sub, x})
+			for _, y := range tail {
+				seqs = append(seqs, []string{"open-dgram", sub, x, y})
+				if thorough {
+					for _, z := range tail {
+						seqs = append(seqs, []string{"open-dgram", sub, x, y, z})
+					}
+				}
+			}
+		}
+	}
+	return seqs
+}
+
 func coordC17(c *Coord) {
 	var seqs [][]string
+	seqs = append(seqs, c17SubscriptionSeqs(c.Thorough())...)
 	for _, a := range c17Ops {
 		seqs = append(seqs, []string{a})
 		for _, b := range c17Ops {
@@ -451,21 +472,6 @@ func coordC17(c *Coord) {
 		for _, mid := range []string{"conn-close", "conn-closeconnection", "srvconn-close", "close-listener", "shutdown-a", "shutdown-b", "dial"} {
 			for _, last := range []string{"conn-close", "conn-closeconnection", "srvconn-close", "close-listener", "dial", "shutdown-a"} {
 				seqs = append(seqs, []string{"listen", "dial", mid, last})
-			}
-		}
-	}
-	// subscriptions to unreachable notices on the datagram socket: pending notices, unsubscribe, close, shutdown
-	for _, sub := range []string{"subscribe-idle", "subscribe-read"} {
-		tail := []string{"unknown-send2", "unsubscribe", "close-dgram", "ping-expired", "blocked1", "shutdown-a", "subscribe-read"}
-		for _, x := range tail {
-			seqs = append(seqs, []string{"open-dgram", sub, x})
-			for _, y := range tail {
-				seqs = append(seqs, []string{"open-dgram", sub, x, y})
-				if c.Thorough() {
-					for _, z := range tail {
-						seqs = append(seqs, []string{"open-dgram", sub, x, y, z})
-					}
-				}
 			}
 		}
 	}
